@@ -325,6 +325,26 @@ def run_case(ctx, idx, rng, tier):
         if bad:
             ctx.violation("mappable", f"qubit {bad[0]} mapped to trap {mp[bad[0]]} sits at {list(arr(qs[bad[0]]))}, the "
                           f"trap at {list(td[mp[bad[0]]])}", "mappable-off-trap")
+        # the same mappable register asked again for the same qubits on other traps: each answer follows its own mapping
+        if n > m:
+            traps2 = rng.sample(range(n), m)
+            if traps2 != traps_for:
+                mp2 = dict(zip(chosen, traps2))
+                try:
+                    reg2 = mreg.build_register(dict(mp2))
+                    ctx.count("mappable_rebuilt_with_other_traps")
+                    q2 = reg2.qubits
+                    bad2 = [q for q in chosen if not same(arr(q2[q]), td[mp2[q]])]
+                    if bad2:
+                        ctx.violation("mappable", f"second build_register on the same MappableRegister: qubit {bad2[0]} mapped "
+                                      f"to trap {mp2[bad2[0]]} sits at {list(arr(q2[bad2[0]]))} (first mapping put it on trap "
+                                      f"{mp[bad2[0]]})", "mappable-second-build-follows-first")
+                    if any(not same(arr(reg.qubits[q]), td[mp[q]]) for q in chosen):
+                        ctx.violation("mappable", "the register of the first build moved when the second was built",
+                                      "mappable-first-build-changed")
+                except Exception as e:
+                    ctx.violation("mappable", f"second build_register({list(mp2.items())[:5]}) raised {type(e).__name__}: "
+                                  f"{str(e)[:160]}", "mappable-raised")
     # ---- detuning maps --------------------------------------------------------------------------------------
     if ref["ambiguous"]:
         ctx.gray("half-way-rounding:weights-not-compared")
